@@ -167,7 +167,8 @@ def check(ctx):
     q = ctx.quick()
     texts = ["", "a", "a \"s\";b\n", "é中 /* é */ \"é\"\n",
              # escaped identifiers made of anything but white space, ended by a line break
-             "wire \\été\n;\n", "wire \\\x0bx\n;\n", "wire \\中\n , \\\x01\n;\n", "wire \\a\x7fb\n;\n", "x \\\u00a0y\n z\n", "wire \\a\x0cb\n;\n"]
+             "wire \\été\n;\n", "wire \\\x0bx\n;\n", "wire \\中\n , \\\x01\n;\n", "wire \\a\x7fb\n;\n", "x \\\u00a0y\n z\n", "wire \\a\x0cb\n;\n",
+             "endmodule // m", "//", "a // c\r\n// last", "x /* c */ // d", "// only\r"]
     texts += [gen_text(r) for _ in range(250 if q else 4000)] + [gen_text(r, True) for _ in range(60 if q else 800)]
     # long files read through the file entry point: multi-byte characters across every multiple of 1 / 4 / 8 KiB
     for kb, step, ch in ([(20, 1024, "é"), (36, 8192, "中")] if q else [(20, 1024, "é"), (70, 4096, "中"), (140, 8192, "é"), (40, 8192, "😀")]):
